@@ -10,6 +10,8 @@ _MODELS = {}
 
 
 def built(spec, lam=True):
+    if getattr(spec, "model", None) is not None and lam:
+        return spec.model          # catalogue model: the real object from pygom.model.common_models
     key = (spec.name, lam)
     if key not in _MODELS:
         _MODELS[key] = spec.build(lam=lam)
@@ -290,6 +292,9 @@ class C01(Check):
         for u, s in zip(us, fam):
             u.optional = s.name.startswith("gen")
         us += [assembly_unit(names_spec(pool)) for pool in NAME_POOLS]
+        # the catalogue (pygom.model.common_models): oracle assembled from the definition each model stores as given
+        cat = ["SIR_Birth_Death", "SEIR_Birth_Death_Periodic", "Lotka_Volterra", "FitzHugh"] if tier == "quick" else expr.CATALOGUE
+        us += [assembly_unit(expr.catalogue(nm)) for nm in cat]
         cy = ["sir_mag"] if tier == "quick" else ["sir_mag", "saturating", "exponential", "periodic", "derived_nested", "ode_mixed", "sir_bd_multi"]
         us += [cython_unit(expr.by_name(nm)) for nm in cy]
         sig = sigma_specs(1) + (sigma_specs(2) if tier != "quick" else sigma_specs(2)[::7])
